@@ -24,6 +24,10 @@ pub enum Ty {
     Ex(TV, Box<Ty>),
     /// a type operator (index into OPERATORS) applied to an argument
     App(usize, Box<Ty>),
+    /// value-level (pure) function type `A -> B` with B a value type
+    VFn(Box<Ty>, Box<Ty>),
+    /// value-level universal type `forall (X : VType) . T` with T a value type
+    VAll(TV, Box<Ty>),
 }
 #[derive(Clone, Debug, PartialEq, Eq, Hash, PartialOrd, Ord)]
 pub enum CTy {
@@ -72,6 +76,12 @@ pub fn expand_t(t: &Ty) -> Ty {
         | other => other.clone(),
     }
 }
+fn vfn(a: Ty, b: Ty) -> Ty {
+    Ty::VFn(Box::new(a), Box::new(b))
+}
+fn vall(x: TV, b: Ty) -> Ty {
+    Ty::VAll(x, Box::new(b))
+}
 fn pair(a: Ty, b: Ty) -> Ty {
     Ty::Pair(Box::new(a), Box::new(b))
 }
@@ -92,6 +102,19 @@ fn subst_t(t: &Ty, x: TV, with: &Ty) -> Ty {
         | Ty::Thk(c) => Ty::Thk(Box::new(subst_c(c, x, with))),
         | Ty::Pair(a, b) => pair(subst_t(a, x, with), subst_t(b, x, with)),
         | Ty::App(k, a) => Ty::App(*k, Box::new(subst_t(a, x, with))),
+        | Ty::VFn(a, b) => vfn(subst_t(a, x, with), subst_t(b, x, with)),
+        | Ty::VAll(y, b) if *y == x => Ty::VAll(*y, b.clone()),
+        | Ty::VAll(y, b) => {
+            let mut fv = BTreeSet::new();
+            ftv_t(with, &mut fv);
+            if fv.contains(y) {
+                let fresh = 20000 + *y;
+                let b2 = subst_t(b, *y, &Ty::Var(fresh));
+                vall(fresh, subst_t(&b2, x, with))
+            } else {
+                vall(*y, subst_t(b, x, with))
+            }
+        }
         | Ty::Ex(y, b) if *y == x => Ty::Ex(*y, b.clone()),
         | Ty::Ex(y, b) => {
             let mut fv = BTreeSet::new();
@@ -140,7 +163,11 @@ fn ftv_t(t: &Ty, out: &mut BTreeSet<TV>) {
             ftv_t(b, out);
         }
         | Ty::App(_, a) => ftv_t(a, out),
-        | Ty::Ex(x, b) => {
+        | Ty::VFn(a, b) => {
+            ftv_t(a, out);
+            ftv_t(b, out);
+        }
+        | Ty::Ex(x, b) | Ty::VAll(x, b) => {
             let mut inner = BTreeSet::new();
             ftv_t(b, &mut inner);
             inner.remove(x);
@@ -180,12 +207,13 @@ pub fn aeq_t(a: &Ty, b: &Ty, m: &mut Vec<(TV, TV)>) -> bool {
         }
         | (Ty::Thk(c), Ty::Thk(d)) => aeq_c(c, d, m),
         | (Ty::Pair(a1, b1), Ty::Pair(a2, b2)) => aeq_t(a1, a2, m) && aeq_t(b1, b2, m),
-        | (Ty::Ex(x, s), Ty::Ex(y, t)) => {
+        | (Ty::Ex(x, s), Ty::Ex(y, t)) | (Ty::VAll(x, s), Ty::VAll(y, t)) => {
             m.push((*x, *y));
             let r = aeq_t(s, t, m);
             m.pop();
             r
         }
+        | (Ty::VFn(a1, b1), Ty::VFn(a2, b2)) => aeq_t(a1, a2, m) && aeq_t(b1, b2, m),
         | _ => false,
     }
 }
@@ -223,6 +251,13 @@ pub enum Val {
     Pair(Box<Val>, Box<Val>),
     /// `(T, payload)` at an existential type; only directly under an annotated `let`
     Pack(Ty, Box<Val>),
+    /// value-level function `fn (x : T) => v`
+    VLam(Var, Ty, Box<Val>),
+    /// value-level application `f a`
+    VApp(Box<Val>, Box<Val>),
+    /// value-level type abstraction `fn (X : VType) => v` and application `f T`
+    VTLam(TV, Box<Val>),
+    VTApp(Box<Val>, Ty),
 }
 #[derive(Clone, Debug, PartialEq, Eq, Hash)]
 pub enum Cmp {
@@ -284,6 +319,28 @@ pub fn synth_v(s: &Scope, v: &Val) -> Result<Ty, String> {
         | Val::Thunk(c) => thk(synth_c(s, c)?),
         | Val::Pair(a, b) => pair(synth_v(s, a)?, synth_v(s, b)?),
         | Val::Pack(..) => return Err("a package needs an annotation".into()),
+        | Val::VLam(x, t, b) => {
+            wf_t(s, t)?;
+            vfn(t.clone(), synth_v(&s.with_var(*x, t.clone()), b)?)
+        }
+        | Val::VTLam(x, b) => vall(*x, synth_v(&s.with_tv(*x), b)?),
+        | Val::VApp(f, a) => match expand_t(&synth_v(s, f)?) {
+            | Ty::VFn(d, c) => {
+                let t = synth_v(s, a)?;
+                if !teq(&t, &d) {
+                    return Err(format!("value argument of type {} where {} is expected", show_t(&t), show_t(&d)));
+                }
+                *c
+            }
+            | other => return Err(format!("value application of a value of type {}", show_t(&other))),
+        },
+        | Val::VTApp(f, t) => match expand_t(&synth_v(s, f)?) {
+            | Ty::VAll(x, b) => {
+                wf_t(s, t)?;
+                subst_t(&b, x, t)
+            }
+            | other => return Err(format!("value type application of a value of type {}", show_t(&other))),
+        },
     })
 }
 /// checking mode for the one form that needs it
@@ -395,6 +452,8 @@ pub enum RV {
     B,
     Thunk(Rc<Cmp>, REnv),
     Pair(Box<RV>, Box<RV>),
+    VClosure(Var, Rc<Val>, REnv),
+    VTClosure(Rc<Val>, REnv),
 }
 pub type REnv = im::OrdMap<Var, RV>;
 enum Frame {
@@ -408,6 +467,7 @@ pub fn show_rv(v: &RV) -> String {
         | RV::A => "+A(())".into(),
         | RV::B => "+B(())".into(),
         | RV::Thunk(..) => "<thunk>".into(),
+        | RV::VClosure(..) | RV::VTClosure(..) => "<vclosure>".into(),
         | RV::Pair(a, b) => {
             // right-nested products are flat
             let bs = show_rv(b);
@@ -430,6 +490,19 @@ pub fn eval(c: &Cmp, mut fuel: u64) -> Result<String, String> {
             | Val::Pair(a, b) => RV::Pair(Box::new(value(a, env)?), Box::new(value(b, env)?)),
             // types are erased: a package is its payload
             | Val::Pack(_, payload) => value(payload, env)?,
+            | Val::VLam(x, _, b) => RV::VClosure(*x, Rc::new((**b).clone()), env.clone()),
+            | Val::VTLam(_, b) => RV::VTClosure(Rc::new((**b).clone()), env.clone()),
+            | Val::VApp(f, a) => match value(f, env)? {
+                | RV::VClosure(x, b, e) => {
+                    let arg = value(a, env)?;
+                    value(&b, &e.update(x, arg))?
+                }
+                | other => return Err(format!("STUCK: value application of {}", show_rv(&other))),
+            },
+            | Val::VTApp(f, _) => match value(f, env)? {
+                | RV::VTClosure(b, e) => value(&b, &e)?,
+                | other => return Err(format!("STUCK: value type application of {}", show_rv(&other))),
+            },
         })
     }
     loop {
@@ -517,11 +590,25 @@ pub fn show_t(t: &Ty) -> String {
         | Ty::Pair(a, b) => format!("{} * {}", show_t_atom_arrow(a), show_t_atom_arrow(b)),
         | Ty::Ex(x, b) => format!("exists ({} : VType) . {}", tv_name(*x), show_t(b)),
         | Ty::App(k, a) => format!("{} {}", operators()[*k].0, show_t_atom(a)),
+        | Ty::VFn(a, b) => format!("{} -> {}", show_t_arrow_param(a), show_t_arrow_cod(b)),
+        | Ty::VAll(x, b) => format!("forall ({} : VType) . {}", tv_name(*x), show_t(b)),
+    }
+}
+fn show_t_arrow_param(t: &Ty) -> String {
+    match t {
+        | Ty::VFn(..) | Ty::VAll(..) | Ty::Pair(..) | Ty::Ex(..) => format!("({})", show_t(t)),
+        | _ => show_t(t),
+    }
+}
+fn show_t_arrow_cod(t: &Ty) -> String {
+    match t {
+        | Ty::VAll(..) | Ty::Ex(..) => format!("({})", show_t(t)),
+        | _ => show_t(t),
     }
 }
 fn show_t_atom(t: &Ty) -> String {
     match t {
-        | Ty::Thk(_) | Ty::Pair(..) | Ty::Ex(..) | Ty::App(..) => format!("({})", show_t(t)),
+        | Ty::Thk(_) | Ty::Pair(..) | Ty::Ex(..) | Ty::App(..) | Ty::VFn(..) | Ty::VAll(..) => format!("({})", show_t(t)),
         | _ => show_t(t),
     }
 }
@@ -540,7 +627,7 @@ pub fn show_c(c: &CTy) -> String {
 fn show_t_atom_arrow(t: &Ty) -> String {
     // `Thk (..)` and operator applications bind tighter than `->` and `*`
     match t {
-        | Ty::Pair(..) | Ty::Ex(..) => format!("({})", show_t(t)),
+        | Ty::Pair(..) | Ty::Ex(..) | Ty::VFn(..) | Ty::VAll(..) => format!("({})", show_t(t)),
         | _ => show_t(t),
     }
 }
@@ -567,6 +654,8 @@ fn inline_t(t: &Ty) -> Ty {
         | Ty::Pair(a, b) => pair(inline_t(a), inline_t(b)),
         | Ty::Ex(x, b) => ex(*x, inline_t(b)),
         | Ty::App(..) => inline_t(&expand_t(t)),
+        | Ty::VFn(a, b) => vfn(inline_t(a), inline_t(b)),
+        | Ty::VAll(x, b) => vall(*x, inline_t(b)),
         | o => o.clone(),
     }
 }
@@ -596,6 +685,14 @@ fn pv(v: &Val, inline: bool) -> String {
                 | other => format!("({}, {})", ws, pv(other, inline)),
             }
         }
+        | Val::VLam(x, t, b) => format!("(fn (v{x} : {}) => {})", pt(t, inline), pv(b, inline)),
+        | Val::VTLam(x, b) => format!("(fn ({} : VType) => {})", tv_name(*x), pv(b, inline)),
+        | Val::VApp(f, a) => format!("({} {})", pv(f, inline), pv(a, inline)),
+        | Val::VTApp(f, t) => {
+            let ts = pt(t, inline);
+            let ts = if matches!(t, Ty::Int | Ty::Two | Ty::Var(_)) { ts } else { format!("({ts})") };
+            format!("({} {})", pv(f, inline), ts)
+        }
     }
 }
 fn pt(t: &Ty, inline: bool) -> String {
@@ -622,7 +719,7 @@ pub fn pc(c: &Cmp, inline: bool) -> String {
         | Cmp::App(f, v) => format!("{} {}", head(f, inline), pv(v, inline)),
         | Cmp::TApp(f, t) => {
             let ts = pt(t, inline);
-            let ts = if matches!(t, Ty::Thk(_) | Ty::Pair(..) | Ty::Ex(..) | Ty::App(..)) { format!("({ts})") } else { ts };
+            let ts = if matches!(t, Ty::Thk(_) | Ty::Pair(..) | Ty::Ex(..) | Ty::App(..) | Ty::VFn(..) | Ty::VAll(..)) { format!("({ts})") } else { ts };
             format!("{} {}", head(f, inline), ts)
         }
         | Cmp::Force(v) => format!("! {}", pv(v, inline)),
@@ -656,7 +753,8 @@ pub fn innermost_only(c: &Cmp) -> bool {
             | Ty::Thk(c) => ct(c, st),
             | Ty::Pair(a, b) => t(a, st) && t(b, st),
             | Ty::App(_, a) => t(a, st),
-            | Ty::Ex(x, b) => {
+            | Ty::VFn(a, b) => t(a, st) && t(b, st),
+            | Ty::Ex(x, b) | Ty::VAll(x, b) => {
                 st.push(*x);
                 let r = t(b, st);
                 st.pop();
@@ -683,6 +781,15 @@ pub fn innermost_only(c: &Cmp) -> bool {
             | Val::Thunk(c) => go(c, st),
             | Val::Pair(a, b) => v(a, st) && v(b, st),
             | Val::Pack(w, p) => t(w, st) && v(p, st),
+            | Val::VLam(_, ty, b) => t(ty, st) && v(b, st),
+            | Val::VApp(f, a) => v(f, st) && v(a, st),
+            | Val::VTLam(x, b) => {
+                st.push(*x);
+                let r = v(b, st);
+                st.pop();
+                r
+            }
+            | Val::VTApp(f, ty) => v(f, st) && t(ty, st),
             | _ => true,
         }
     }
@@ -730,6 +837,9 @@ pub struct Gen {
     pub max_vars_per_type: usize,
     /// F-omega menu: existential packages, a type operator, pairs (instead of the quantifier menu)
     pub omega: bool,
+    /// value-level (pure) functions: `A -> B` and `forall X . T` as value types, with abstraction and
+    /// application inside values (instead of the other menus)
+    pub vfun: bool,
     /// set by the `let` generator for the value directly under the annotation (packages need one)
     pub pack_ok: std::cell::Cell<bool>,
 }
@@ -763,6 +873,13 @@ impl Gen {
     /// annotation menu for let-bound thunks in this scope
     fn let_menu(&self, s: &Scope) -> Vec<Ty> {
         let z = 500 + s.tvs.len() as TV; // binder id reserved for menu types at this depth
+        if self.vfun {
+            let mut m = vec![vfn(Ty::Int, Ty::Int), vfn(Ty::Two, Ty::Int), vfn(Ty::Int, vfn(Ty::Int, Ty::Int)), vall(z, vfn(Ty::Var(z), Ty::Var(z))), vfn(vfn(Ty::Int, Ty::Int), Ty::Int), vfn(Ty::Int, thk(ret(Ty::Int))), pair(Ty::Int, Ty::Two)];
+            for x in &s.tvs {
+                m.push(vfn(Ty::Var(*x), Ty::Var(*x)));
+            }
+            return m;
+        }
         if self.omega {
             // an abstract data type: a hidden representation with an observer
             let mut m = vec![ex(z, pair(Ty::Var(z), thk(func(Ty::Var(z), ret(Ty::Int)))))];
@@ -834,6 +951,19 @@ impl Gen {
                     }
                 }
             }
+            | Ty::VFn(a, b) if self.vfun => {
+                let x = Self::fresh_var(s);
+                for body in self.vals(&s.with_var(x, (*a).clone()), &b, n - 1) {
+                    out.push(Val::VLam(x, (*a).clone(), Box::new(body)));
+                }
+            }
+            | Ty::VAll(x, b) if self.vfun => {
+                let y = Self::fresh_tv(s);
+                let b2 = subst_t(&b, x, &Ty::Var(y));
+                for body in self.vals(&s.with_tv(y), &b2, n - 1) {
+                    out.push(Val::VTLam(y, Box::new(body)));
+                }
+            }
             | Ty::Ex(x, b) => {
                 // a package is only generated directly under an annotated let (see cmps)
                 if self.omega && allow_pack {
@@ -846,7 +976,40 @@ impl Gen {
             }
             | _ => {}
         }
+        if self.vfun && n >= 3 {
+            // value-level eliminations of variables of function / universal value types
+            for (x, vt) in s.vars.iter() {
+                if matches!(expand_t(vt), Ty::VFn(..) | Ty::VAll(..)) && self.vars_of(s, vt).contains(x) {
+                    self.vspine(s, Val::Var(*x), vt, t, n - 1, &mut out);
+                }
+            }
+        }
         out
+    }
+
+    /// all ways to eliminate the value `head : ty_head` down to `want` with exactly `n` more nodes
+    fn vspine(&self, s: &Scope, head: Val, ty_head: &Ty, want: &Ty, n: usize, out: &mut Vec<Val>) {
+        if n == 0 {
+            if teq(ty_head, want) && !matches!(head, Val::Var(_)) {
+                out.push(head);
+            }
+            return;
+        }
+        match expand_t(ty_head) {
+            | Ty::VFn(a, b) => {
+                for k in 1..=n {
+                    for v in self.vals(s, &a, k) {
+                        self.vspine(s, Val::VApp(Box::new(head.clone()), Box::new(v)), &b, want, n - k, out);
+                    }
+                }
+            }
+            | Ty::VAll(x, b) => {
+                for t in self.insts(s) {
+                    self.vspine(s, Val::VTApp(Box::new(head.clone()), t.clone()), &subst_t(&b, x, &t), want, n - 1, out);
+                }
+            }
+            | _ => {}
+        }
     }
 
     /// all ways to eliminate `head : ty_head` down to `want` with exactly `n` more nodes
@@ -1008,7 +1171,7 @@ fn is_poly(c: &Cmp) -> bool {
     fn v(x: &Val) -> bool {
         match x {
             | Val::Thunk(c) => is_poly(c),
-            | Val::Pack(..) => true,
+            | Val::Pack(..) | Val::VLam(..) | Val::VApp(..) | Val::VTLam(..) | Val::VTApp(..) => true,
             | Val::Pair(a, b) => v(a) || v(b),
             | _ => false,
         }
@@ -1044,7 +1207,7 @@ fn wrap(alias: usize, body: Cmp) -> Cmp {
 
 /// the F-omega part: existential packages, a type operator, pairs
 pub fn universe_omega(tier: Tier) -> Vec<Cmp> {
-    let g = Gen { max_vars_per_type: 2, omega: true, pack_ok: std::cell::Cell::new(false) };
+    let g = Gen { max_vars_per_type: 2, omega: true, vfun: false, pack_ok: std::cell::Cell::new(false) };
     let n = if tier == Tier::Thorough { 15 } else { 13 };
     let mut out = vec![];
     for root in [ret(Ty::Int), ret(Ty::Two)] {
@@ -1059,13 +1222,31 @@ pub fn universe_omega(tier: Tier) -> Vec<Cmp> {
     out
 }
 
+/// the value-function part: pure functions as values
+pub fn universe_vfun(tier: Tier) -> Vec<Cmp> {
+    let g = Gen { max_vars_per_type: 2, omega: false, vfun: true, pack_ok: std::cell::Cell::new(false) };
+    let n = if tier == Tier::Thorough { 13 } else { 12 };
+    let mut out = vec![];
+    for root in [ret(Ty::Int), ret(Ty::Two)] {
+        for k in 2..=n {
+            out.extend(g.cmps(&Scope::default(), &root, k).into_iter().filter(uses_vfun));
+        }
+    }
+    out
+}
+
+fn uses_vfun(c: &Cmp) -> bool {
+    let d = format!("{:?}", c);
+    d.contains("VLam(") || d.contains("VApp(") || d.contains("VTLam(") || d.contains("VTApp(")
+}
+
 fn uses_omega(c: &Cmp) -> bool {
     let d = format!("{:?}", c);
     d.contains("Pack(") || d.contains("Unpack(") || d.contains("LetPair(") || d.contains("App(0") || d.contains("Pair(")
 }
 
 pub fn universe(tier: Tier) -> Vec<Cmp> {
-    let g = Gen { max_vars_per_type: 2, omega: false, pack_ok: std::cell::Cell::new(false) };
+    let g = Gen { max_vars_per_type: 2, omega: false, vfun: false, pack_ok: std::cell::Cell::new(false) };
     let (n_plain, n_id, n_cps) = if tier == Tier::Thorough { (17, 15, 14) } else { (15, 13, 12) };
     let mut out = vec![];
     for root in [ret(Ty::Int), ret(Ty::Two)] {
@@ -1079,6 +1260,7 @@ pub fn universe(tier: Tier) -> Vec<Cmp> {
         }
     }
     out.extend(universe_omega(tier));
+    out.extend(universe_vfun(tier));
     out
 }
 
@@ -1088,7 +1270,7 @@ pub fn universe(tier: Tier) -> Vec<Cmp> {
 /// replacing a type argument by another candidate; replacing a `let` annotation by another menu
 /// entry; replacing a parameter annotation by another candidate type
 pub fn mutants(c: &Cmp) -> Vec<(String, Cmp)> {
-    let g = Gen { max_vars_per_type: 99, omega: uses_omega(c), pack_ok: std::cell::Cell::new(false) };
+    let g = Gen { max_vars_per_type: 99, omega: uses_omega(c), vfun: uses_vfun(c), pack_ok: std::cell::Cell::new(false) };
     let mut out = vec![];
     fn go_v(g: &Gen, s: &Scope, v: &Val, rebuild: &dyn Fn(Val) -> Cmp, out: &mut Vec<(String, Cmp)>) {
         match v {
@@ -1111,6 +1293,29 @@ pub fn mutants(c: &Cmp) -> Vec<(String, Cmp)> {
                     }
                 }
                 go_v(g, s, payload, &|p2| rebuild(Val::Pack(w.clone(), Box::new(p2))), out);
+            }
+            | Val::VLam(x, t, b) => {
+                for t2 in g.insts(s) {
+                    if t2 != *t {
+                        out.push((format!("parameter v{x} annotated {} instead of {}", show_t(&t2), show_t(t)), rebuild(Val::VLam(*x, t2, b.clone()))));
+                    }
+                }
+                go_v(g, &s.with_var(*x, t.clone()), b, &|b2| rebuild(Val::VLam(*x, t.clone(), Box::new(b2))), out);
+            }
+            | Val::VTLam(x, b) => go_v(g, &s.with_tv(*x), b, &|b2| rebuild(Val::VTLam(*x, Box::new(b2))), out),
+            | Val::VApp(f, a) => {
+                go_v(g, s, f, &|f2| rebuild(Val::VApp(Box::new(f2), a.clone())), out);
+                go_v(g, s, a, &|a2| rebuild(Val::VApp(f.clone(), Box::new(a2))), out);
+                // drop the argument / apply once more
+                out.push(("occurrence: value application replaced by its function".to_string(), rebuild((**f).clone())));
+            }
+            | Val::VTApp(f, t) => {
+                for t2 in g.insts(s) {
+                    if t2 != *t {
+                        out.push((format!("type argument {} replaced by {}", show_t(t), show_t(&t2)), rebuild(Val::VTApp(f.clone(), t2))));
+                    }
+                }
+                go_v(g, s, f, &|f2| rebuild(Val::VTApp(Box::new(f2), t.clone())), out);
             }
             | _ => {}
         }
@@ -1192,7 +1397,8 @@ fn same_alias_nested(c: &Cmp) -> bool {
         match x {
             | Val::Thunk(c) => go(c, open),
             | Val::Pair(a, b) => v(a, open) || v(b, open),
-            | Val::Pack(_, p) => v(p, open),
+            | Val::Pack(_, p) | Val::VLam(_, _, p) | Val::VTLam(_, p) | Val::VTApp(p, _) => v(p, open),
+            | Val::VApp(f, a) => v(f, open) || v(a, open),
             | _ => false,
         }
     }
@@ -1265,7 +1471,7 @@ impl Check for PolyUniverse {
         format!("programs {}..{} of the System-F universe; first:\n{}", a, (a + self.chunk).min(self.progs.len()), program(&self.progs[a], false))
     }
     fn rule(&self) -> String {
-        format!("every closed computation of type Ret Int64 / Ret Two with at most {} nodes in a System-F fragment (ret, do, annotated fn, type abstraction, application to values and to types drawn from {{Int64, Two, type variables in scope}}, force, let at an annotation from a menu of thunk types — the aliases Id = forall X . X -> Ret X and Cps, an inline alpha-variant, quantified types with a free enclosing variable, monomorphic function types —, match) that uses at least one type abstraction or application, plus an F-omega part with at most 13 (thorough 15) nodes whose let menu offers existential packages over a pair of a hidden representation and an observer, the type operator Cont (P : VType) = Thk (P -> Ret Int64) applied to Int64 / Two / variables, and pairs, with package introduction (witness from the candidates), unpacking and pair patterns ({} programs in all), each printed twice (aliases by name / aliases expanded), plus every single-site mutant (variable occurrence -> another variable in scope, type argument -> another candidate, let annotation -> another menu entry, parameter annotation -> another candidate, package witness -> another candidate, body of an unpacking -> `ret payload`, which lets the abstract type escape); reference: a synthesis-only checker for the explicitly typed fragment with alpha-equivalence and alias expansion, and a type-erasing evaluator; oracle for {}: {}; non-trivial = every program (all use polymorphism)",
+        format!("every closed computation of type Ret Int64 / Ret Two with at most {} nodes in a System-F fragment (ret, do, annotated fn, type abstraction, application to values and to types drawn from {{Int64, Two, type variables in scope}}, force, let at an annotation from a menu of thunk types — the aliases Id = forall X . X -> Ret X and Cps, an inline alpha-variant, quantified types with a free enclosing variable, monomorphic function types —, match) that uses at least one type abstraction or application, plus an F-omega part with at most 13 (thorough 15) nodes whose let menu offers existential packages over a pair of a hidden representation and an observer, the type operator Cont (P : VType) = Thk (P -> Ret Int64) applied to Int64 / Two / variables, and pairs, with package introduction (witness from the candidates), unpacking and pair patterns, plus a value-function part with at most 12 (thorough 13) nodes (value types A -> B and forall X . T, abstraction and application inside values, at a menu of first-order, curried, higher-order, polymorphic and thunk-returning function types) ({} programs in all), each printed twice (aliases by name / aliases expanded), plus every single-site mutant (variable occurrence -> another variable in scope, type argument -> another candidate, let annotation -> another menu entry, parameter annotation -> another candidate, package witness -> another candidate, body of an unpacking -> `ret payload`, which lets the abstract type escape); reference: a synthesis-only checker for the explicitly typed fragment with alpha-equivalence and alias expansion, and a type-erasing evaluator; oracle for {}: {}; non-trivial = every program (all use polymorphism)",
             if self.progs.is_empty() { 0 } else { 12 },
             self.progs.len(),
             self.prop,
